@@ -121,7 +121,8 @@ LinOf(i, t) == LET sh == ExtShape(d, den, i)  te == ExtPos(i, t)
 (* After an interruption (the process died, or the run raised) the only state that survives is what is completely *)
 (* stored: `disk` = set of <<output name, linear index>> whose stored value is complete (observed by the harness   *)
 (* from the run folder).  An element is stored iff every output of its function is complete at its index.        *)
-StoredFromDisk(disk) == {e \in AllElements : \A o \in OutputsOf(d, e[1]) : <<o, LinOf(e[1], e[2])>> \in disk}
+EveryElement == UNION {{<<i, t>> : t \in CallPositions(i)} : i \in cfg.F}       \* regardless of the current selection
+StoredFromDisk(disk) == {e \in EveryElement : \A o \in OutputsOf(d, e[1]) : <<o, LinOf(e[1], e[2])>> \in disk}
 Interrupt(disk) ==
     /\ phase \in {"running", "idle"}
     /\ phase' = "idle" /\ stored' = StoredFromDisk(disk)
